@@ -10,7 +10,7 @@ CONSTANTS
   Costs = {1}
   Steps = {1, 2, 3}
   MaxNow = 7
-  Ids = {"x", "y"}
+  Ids = {"x", "y", "z"}
   N = 2
   Mode = "conc"
   Variant = "none"
